@@ -370,3 +370,12 @@ Proof.
       * destruct (find_kid l ks) as [c|] eqn:Ef; [|discriminate].
         apply find_kid_In in Ef. apply (IH (l, c) Ef).
 Qed.
+
+Lemma search_first_candidates : forall (t : node) (f : list level),
+  (forall v, In v (tsearch_firsts f t) -> In v (tsearch_raw f t)) /\
+  (tsearch_firsts f t = [] <-> tsearch_raw f t = []) /\
+  (forall v, tsearch_first f t = Some v -> In v (tsearch_firsts f t)).
+Proof.
+  intros t f. destruct (tsearch_firsts_sound t f) as [H1 H2].
+  split; [exact H1 | split; [exact H2 | exact (tsearch_first_candidate t f)]].
+Qed.
